@@ -37,15 +37,26 @@ def run(ctx):
         if len(scns) != count:
             raise ToolError("CallbackScn produced %d of %d" % (len(scns), count))
     trace = os.path.join(ctx.tmp, "c18trace.ndjson")
-    res = ctx.run_harness("c18", scns, args=["-out", trace], timeout=3000)
+    # every scenario in a process of its own: a panic in a library goroutine (two readers on the queue, say) is a verdict about
+    # that scenario, not the end of the run
+    res = ctx.run_harness("isolated", scns, args=["c18"], timeout=3000, env={"VERIF_WORKERS": "8"})
     if len(res) != len(scns):
         raise ToolError("c18 answered %d of %d; stderr:\n%s" % (len(res), len(scns), ctx.last_stderr[-3000:]))
-    byid = {s["id"]: s for s in scns}
+    res.sort(key=lambda r: r["id"])
     classes = {}
+    with open(trace, "w") as fh:
+        for rr in res:
+            for e in (rr.get("extra") or {}).get("trace") or []:
+                fh.write(json.dumps(e) + "\n")
     for rr in res:
         ctx.count()
-        if not rr["ok"]:
-            ctx.violation(rr["sig"], rr["detail"], byid[rr["id"]])
+        if rr.get("toolerror") or rr.get("sig") == "TOOL":
+            raise ToolError(rr.get("toolerror") or rr.get("detail"))
+        if rr.get("died"):
+            st = rr.get("stderr", "")
+            ctx.violation("C18:process-died", "the process died during this scenario (panic in a library goroutine):\n" + st[-1800:], scns[rr["id"]])
+        elif not rr["ok"]:
+            ctx.violation(rr["sig"], rr["detail"], scns[rr["id"]])
         else:
             c = rr["extra"]["class"]
             classes[c] = classes.get(c, 0) + 1
